@@ -1104,6 +1104,89 @@ theorem licmF_kept_defs_variant (p : List LS) (variant : List Nat) :
 example : (licmF [.pure 2 [1] false, .pure 3 [0] false, .pure 4 [3] false, .stay [5], .pure 6 [5] false, .pure 7 [1, 2] true] [0]).1
     = [.pure 2 [1] false] := by decide
 
+/-! ### Closed-form ("algebraic") loop elimination: applicability and result -/
+
+/-- FULL STRENGTH: whenever the closed-form elimination fires on a well-formed loop, (a) the emitted
+code reads no name that existed only inside the deleted loop, (b) the original loop leaves after exactly
+`n` iterations and (c) the value given to the break collector is the value the break expression has
+at that moment — for the counter, every general induction variable, literals and outer names. -/
+theorem algopt_sound (A : AlgLoop) (hwf : A.wf) (hi : InRange A.i0) (hb : InRange A.bound)
+    (hg : ∀ p, p ∈ A.givs → InRange p.1) :
+    algOpt A ≠ .readsInner ∧
+    ∀ v, algOpt A = .value v →
+      ∃ n : Nat, BreaksAt A.g A.i0 A.step A.bound n ∧ A.brkAt n = some v := by
+  unfold algOpt algOptWith
+  by_cases hd : (!A.literals || (true && A.nonIv != 0) || (true && A.derived != 0) || (true && A.stmts != 0)) = true
+  · simp only [hd, if_true]; exact ⟨by simp, fun v h => by simp at h⟩
+  · simp only [hd]
+    simp only [Bool.true_and, Bool.or_eq_true, Bool.not_eq_true', bne_iff_ne, ne_eq, not_or, Bool.not_eq_false,
+      Decidable.not_not] at hd
+    cases ht : tripCount A.g A.i0 A.step A.bound with
+    | unknown => exact ⟨by simp, fun v h => by simp at h⟩
+    | panic => exact ⟨by simp, fun v h => by simp at h⟩
+    | count n =>
+      have hbr := tripcount_exact A.g A.i0 A.step A.bound n hi hb ht
+      have hfin := tripcount_final_value A.g A.i0 A.step A.bound n hi ht
+      obtain ⟨h0, _, _, _⟩ := tripCount_ideal A.g A.i0 A.step A.bound n hi ht
+      simp only
+      cases hbk : A.brk with
+      | none => exact ⟨by simp, fun v h => by simp at h⟩
+      | some bv =>
+        cases bv with
+        | counter =>
+          refine ⟨by simp, fun v h => ?_⟩
+          simp at h
+          exact ⟨n.toNat, hbr, by simp [AlgLoop.brkAt, hbk, hfin, h]⟩
+        | lit w =>
+          refine ⟨by simp, fun v h => ?_⟩
+          simp at h
+          exact ⟨n.toNat, hbr, by simp [AlgLoop.brkAt, hbk, h]⟩
+        | outer w =>
+          refine ⟨by simp, fun v h => ?_⟩
+          simp at h
+          exact ⟨n.toNat, hbr, by simp [AlgLoop.brkAt, hbk, h]⟩
+        | inner =>
+          have := hwf.1 hbk
+          rcases this with h | h | h
+          · exact absurd hd.1.1.2 h
+          · exact absurd hd.1.2 h
+          · exact absurd hd.2 h
+        | giv k =>
+          have hk := hwf.2 k hbk
+          have hget : A.givs[k]? = some A.givs[k] := List.getElem?_eq_getElem hk
+          simp only [hget]
+          refine ⟨by simp, fun v h => ?_⟩
+          simp at h
+          refine ⟨n.toNat, hbr, ?_⟩
+          have hin := hg A.givs[k] (List.getElem_mem hk)
+          simp only [AlgLoop.brkAt, hbk, hget, Option.map]
+          rw [iterW_eq _ _ hin, Int.toNat_of_nonneg h0, ← h]
+          unfold addT mulT
+          rw [wrap32_add_right]
+
+/-- Each decline condition is necessary. (1) dropped (seeded-fault class C02e): a loop carrying a
+passed-through variable that is its break value is "solved" by code that reads that variable after
+the loop is gone. -/
+theorem algopt_needs_no_nonIv :
+    let A : AlgLoop := { g := .lt, i0 := 0, step := 1, bound := 10, literals := true, nonIv := 1, derived := 0,
+                         stmts := 0, givs := [], brk := some .inner }
+    A.wf ∧ algOpt A = .declined ∧ algOptWith false true true A = .readsInner := by
+  refine ⟨⟨fun _ => Or.inl (by decide), fun k h => by simp at h⟩, by decide, by decide⟩
+
+/-- (2) dropped: the break value is a derived induction variable computed in the body -/
+theorem algopt_needs_no_derived :
+    let A : AlgLoop := { g := .lt, i0 := 0, step := 1, bound := 10, literals := true, nonIv := 0, derived := 1,
+                         stmts := 0, givs := [], brk := some .inner }
+    A.wf ∧ algOpt A = .declined ∧ algOptWith true false true A = .readsInner := by
+  refine ⟨⟨fun _ => Or.inr (Or.inl (by decide)), fun k h => by simp at h⟩, by decide, by decide⟩
+
+/-- (3) dropped: a body with a statement (an effect, or the definition the break value reads) -/
+theorem algopt_needs_no_stmts :
+    let A : AlgLoop := { g := .lt, i0 := 0, step := 1, bound := 10, literals := true, nonIv := 0, derived := 0,
+                         stmts := 1, givs := [], brk := some .inner }
+    A.wf ∧ algOpt A = .declined ∧ algOptWith true true false A = .readsInner := by
+  refine ⟨⟨fun _ => Or.inr (Or.inr (by decide)), fun k h => by simp at h⟩, by decide, by decide⟩
+
 /-! ## 10. Common-subexpression elimination never hoists a trap above an effect -/
 
 /-- FULL STRENGTH (`cse_hoist_order`): for all branches and environments, the statements CSE places
